@@ -201,6 +201,11 @@ func (hc *Honeytrap) findService(conn net.Conn) (*ServiceMap, net.Conn, error) {
 		ch, ok := service.Service.(services.CanHandlerer)
 		if !ok {
 			// Service does not implement CanHandle, assume it can handle the connection
+			if !peekUninitialized {
+				// bytes were already peeked for an earlier service: hand over the
+				// peek wrapper so they are not lost
+				return service, pConn, nil
+			}
 			return service, conn, nil
 		}
 		// Service implements CanHandle, initialize it if needed and run the checks
